@@ -443,8 +443,100 @@ def wl_history(ctx, rng, i):
         shutil.rmtree(tmp, ignore_errors=True)
 
 
+ODD_IDS = [
+    ("other-type-prefix", lambda t, u: "x-other--" + u), ("no-separator", lambda t, u: t + "-" + u), ("type-then-junk", lambda t, u: t + "--not-a-uuid"),
+    ("type-then-nothing", lambda t, u: t + "--"), ("longer-type-prefix", lambda t, u: t + "-more--" + u), ("uuid-with-tail", lambda t, u: t + "--" + u + "-1"),
+    ("bare-uuid", lambda t, u: u), ("uppercase-uuid", lambda t, u: t + "--" + u.upper()), ("plain", lambda t, u: t + "--" + u),
+]
+ENCODINGS = ["utf-8", "latin-1", "utf-16", "utf-8", "cp1252", "utf-32"]
+NAMES = ["Zo\u00eb", "plain", "\u00e9\u00e8 \u00fc", "\u03a9mega", "caf\u00e9 \U0001f600", "\u00ff\u00fe"]
+
+
+def wl_odd(ctx, rng, i):
+    """What a store accepts it must give back: dictionaries whose id is not <their type>--<UUID> (nothing obliges a store to take
+    them, but one that takes them without complaint must find them again), and filesystem stores opened with another encoding."""
+    import stix2
+    from stix2.datastore import Filter
+    tmp = tempfile.mkdtemp(prefix="stixmon-c11-")
+    try:
+        fam = "odd-id" if i % 2 == 0 else "encoding"
+        u = V.uuid_text(rng, 4)
+        if fam == "odd-id":
+            lab, mk = ODD_IDS[(i // 2) % len(ODD_IDS)]
+            t = "x-unregistered"
+            o = {"type": t, "id": mk(t, u), "name": "n", "payload": [1, {"a": "b"}]}
+            if (i // 2 // len(ODD_IDS)) % 2 == 0:
+                o["created"] = "2000-01-01T00:00:00.000Z"
+                o["modified"] = "2001-01-01T00:00:00.000Z"
+            if rng.random() < 0.5:
+                o["spec_version"] = "2.1"
+            enc = "utf-8"
+            stores = [("MemoryStore", stix2.MemoryStore(allow_custom=True)), ("FileSystemStore", stix2.FileSystemStore(tmp, allow_custom=True, bundlify=rng.random() < 0.3))]
+            ctx.see("odd id kinds", lab + ("/versioned" if "modified" in o else "/unversioned"))
+        else:
+            enc = ENCODINGS[(i // 2) % len(ENCODINGS)]
+            lab = "encoding:" + enc
+            kind = (i // 2 // len(ENCODINGS)) % 3
+            name = NAMES[(i // 2 // len(ENCODINGS) // 3) % len(NAMES)] if rng.random() < 0.7 else rng.choice(NAMES)
+            if kind == 0:
+                o = {"type": "identity", "spec_version": "2.1", "id": "identity--" + u, "created": "2020-01-01T00:00:00.000Z", "modified": "2020-01-01T00:00:00.000Z",
+                     "name": name, "identity_class": "individual"}
+            elif kind == 1:
+                o = {"type": "x-unregistered", "id": "x-unregistered--" + u, "name": name, "payload": [name]}
+            else:
+                o = {"type": "url", "spec_version": "2.1", "id": "url--" + u, "value": "http://example.com/" + name}
+            stores = [("FileSystemStore(encoding=%s)" % enc, stix2.FileSystemStore(tmp, allow_custom=True, bundlify=rng.random() < 0.3, encoding=enc))]
+            ctx.see("encodings", enc)
+        for sname, store in stores:
+            form = rng.choice(["dict", "list", "bundle-dict"] + (["object"] if fam == "encoding" and o["type"] != "x-unregistered" else []))
+            try:
+                with warnings.catch_warnings():
+                    warnings.simplefilter("ignore")
+                    d = json.loads(json.dumps(o))
+                    store.add(stix2.parse(d, allow_custom=True) if form == "object" else [d] if form == "list" else
+                              {"type": "bundle", "id": "bundle--" + V.uuid_text(rng, 4), "objects": [d]} if form == "bundle-dict" else d)
+            except (ValueError, TypeError, stix2.exceptions.STIXError, stix2.datastore.DataSourceError) as e:
+                # an open refusal loses nothing silently (C17 judges the families of errors)
+                ctx.count("odd_adds_refused_openly")
+                ctx.see("odd refusals", "%s:%s:%s" % (sname.split("(")[0], lab, type(e).__name__))
+                continue
+            except Exception as e:
+                ctx.violation("store-raised:add:" + fam, "%s.add raised %s: %s" % (sname, type(e).__name__, str(e)[:160]), {"store": sname, "object": o, "form": form})
+                continue
+            ctx.count("odd_adds_accepted")
+            ctx.ev()
+            want = json.loads(json.dumps(o))
+            readers = [(sname, store)]
+            if sname.startswith("FileSystemStore"):
+                readers.append((sname + " reopened", stix2.FileSystemStore(tmp, allow_custom=True, encoding=enc)))
+            for rname, rd in readers:
+                for how, fn in (("get", lambda: [rd.get(o["id"])]), ("all_versions", lambda: rd.all_versions(o["id"])),
+                                ("query(type)", lambda: rd.query([Filter("type", "=", o["type"])])), ("query(id)", lambda: rd.query([Filter("id", "=", o["id"])]))):
+                    try:
+                        with warnings.catch_warnings():
+                            warnings.simplefilter("ignore")
+                            got = [norm(x) for x in (fn() or []) if x is not None]
+                    except Exception as e:
+                        ctx.violation("accepted-object-not-given-back:%s:raised" % fam, "%s took %s (%s) without complaint; %s then raised %s: %s" % (sname, o["id"], lab, how, type(e).__name__, str(e)[:120]),
+                                      {"store": rname, "object": o, "form": form, "how": how, "kind": lab})
+                        continue
+                    ctx.ev()
+                    ctx.count("odd_lookups")
+                    same = [g for g in got if g.get("id") == o["id"]]
+                    if not same:
+                        ctx.violation("accepted-object-not-given-back:" + fam, "%s took %s (%s) without complaint; %s does not return it" % (sname, o["id"], lab, how),
+                                      {"store": rname, "object": o, "form": form, "how": how, "kind": lab, "got": got[:3]})
+                    elif any({k: g.get(k) for k in want} != want for g in same):
+                        ctx.violation("content-changed-in-store:" + fam, "%s gives back %s (%s) with other content via %s" % (rname, o["id"], lab, how),
+                                      {"store": rname, "object": o, "form": form, "how": how, "kind": lab, "got": same[:2]})
+            ctx.nontrivial("odd", sname.split("(")[0], lab, form, "modified" in o, o["type"])
+    finally:
+        shutil.rmtree(tmp, ignore_errors=True)
+
+
 WORKLOADS = [
     Workload("history", wl_history, quick=600, thorough=40000),
+    Workload("odd-ids-and-encodings", wl_odd, quick=216, thorough=4320),
 ]
 
 
@@ -463,6 +555,8 @@ def floors(m, tier):
     for k in ("sdo21", "sdo20", "custom", "dict", "dict-spellings", "marking", "sco21"):
         if k not in m["seen"].get("object kinds", set()):
             out.append("object kind %s never stored" % k)
+    if c.get("odd_lookups", 0) < 100:
+        out.append("fewer than 100 lookups of objects with unusual ids / in stores with another encoding")
     return out[:6]
 
 
